@@ -20,7 +20,7 @@ def alone(desc, nstages):
 
 def finish(rec, desc):
     tr = rec.finish()
-    tr['desc'] = {'indomain': True, 'grammar': True}
+    tr['desc'] = {'indomain': True, 'grammar': True, 'nomsa': False}
     tr['nrows'] = len(desc['rows'])
     tr.pop('tb', None)
     return tr
